@@ -5,7 +5,7 @@ From Coq Require Extraction ExtrOcamlBasic.
 From Odf Require Import model.Base model.Teletype model.Inst model.XmlTree model.NsTable model.Dom model.Construct model.EasyList model.UserField model.Package model.ParseSites model.LoadStyles model.Grammar model.GrammarInst model.Load model.LoadInst model.Convert model.ConvInst model.Html model.DomCheck model.HtmlDoc model.FixPart.
 Extraction Language OCaml.
 Separate Extraction
-  Teletype.encode Teletype.extract Teletype.add_text_checked
+  Teletype.encode Teletype.extract Teletype.add_text_checked Teletype.reparse
   Inst.i_text_toXml Inst.i_quoteattr Inst.i_cdata_toXml Inst.i_node_toXml Inst.i_canon
   Inst.i_write_open_tag Inst.i_xml_parse Inst.i_lex Inst.i_used_auto_styles Inst.i_contentxml Inst.i_stylesxml Inst.i_metaxml Inst.i_settingsxml Inst.i_flatxml XmlTree.write_close_tag
   NsTable.ns_step NsTable.get_nsprefix NsTable.get_knownns
